@@ -58,13 +58,22 @@ theorem list_versus_set (e : GoTy) (d : List Char) (allow : Bool) (t : Ty) (r : 
       ((tok = "set".toList ∧ t = .list true et) ∨ (tok = "list".toList ∧ t = .list false et)) :=
   slice_result e d allow t r he h
 
-/-- the annotation decides enum versus i64 -/
+/-- the annotation decides enum versus i64: an enum exactly when it names the Go type and that type is
+    a defined one (not the predeclared `int64` / `int`) -/
 theorem enum_versus_i64 (k : GoKind) (nm : String) (d : List Char) (allow : Bool) (t : Ty) (r : List Char)
     (h : doParseType (.prim k nm) true d allow = some (t, r)) :
     t = .base .enum ↔
-      (kindTag k = some .i64 ∧ GoTy.prim k nm ≠ .prim .int64 "int64" ∧
+      (kindTag k = some .i64 ∧ isPredeclared64 (.prim k nm) = false ∧
        ∃ tv rest, readToken d false = some (tv, rest) ∧ isKeyword .i64 tv = false) :=
   enum_rule k nm d allow t r h
+
+/-- the predeclared `int` named in its own annotation is an i64 like `int64` named `int64` (D24: it used
+    to become a 32-bit enum), a defined integer type named in its annotation is an enum -/
+example : doParseType (.prim .int "int") true "int".toList false = some (.base .i64, []) ∧
+    doParseType (.prim .int64 "int64") true "int64".toList false = some (.base .i64, []) ∧
+    doParseType (.prim .int "int") true "i64".toList false = some (.base .i64, []) ∧
+    doParseType (.prim .int "Kind") true "Kind".toList false = some (.base .enum, []) ∧
+    doParseType (.prim .int64 "Kind") true "Kind".toList false = some (.base .enum, []) := by decide
 
 /-- spelling: spaces around tag components -/
 theorem spaces_same (comps : List (List Char × List Char × List Char))
